@@ -316,6 +316,7 @@ def _early(r, fi, term, label, what):
 
 
 def check_steps(r, idx):
+    SENTINELS.clear()
     ci = idx.cls(M)
     meth = ci.methods
 
@@ -328,9 +329,9 @@ def check_steps(r, idx):
     _step1(r, idx, get('__step1'))
     _step2(r, idx, get('__step2'))
     _step3(r, idx, get('__step3'))
+    _scans(r, idx, meth)
     _step4(r, idx, get('__step4'))
     _step5(r, idx, get('__step5'), get('__convert_path'))
-    _scans(r, idx, meth)
     _resets(r, idx, get('__clear_covers'), get('__erase_primes'))
     _prime_lifetime(r, idx, meth)
 
@@ -1116,34 +1117,57 @@ def _step4(r, idx, fi):
         where = fi.loc
         star_call_p = nf.pat('%s.__find_star_in_row(%s)' % (S, row))
 
+        star_sentinel = SENTINELS.get('__find_star_in_row', -1)
+
         def ev(x, rv, sv):
+            """truth of a guard for row value rv and star value sv (the finder's "not found" value, or an index);
+            None = not evaluable, 'TYPE' = the comparison raises TypeError for these values"""
             if isinstance(x, ast.UnaryOp) and isinstance(x.op, ast.Not):
                 v = ev(x.operand, rv, sv)
-                return None if v is None else not v
+                return v if v in (None, 'TYPE') else not v
             if not (isinstance(x, ast.Compare) and len(x.ops) == 1):
                 return None
+            UNK = object()
 
             def val(e):
                 if cm.is_name(e, row):
                     return rv
                 if nf.Matcher().match(star_call_p, e) is not None:
                     return sv
-                if isinstance(e, ast.Constant) and isinstance(e.value, int):
+                if isinstance(e, ast.Constant) and (e.value is None or (isinstance(e.value, int) and not isinstance(e.value, bool))):
                     return e.value
-                return None
+                return UNK
             a, b = val(x.left), val(x.comparators[0])
+            if a is UNK or b is UNK:
+                return None
+            op = type(x.ops[0])
+            if op in (ast.Is, ast.IsNot):
+                return (a is b) if op is ast.Is else (a is not b)
             import operator as _op
-            f = {ast.Eq: _op.eq, ast.NotEq: _op.ne, ast.Lt: _op.lt, ast.LtE: _op.le, ast.Gt: _op.gt, ast.GtE: _op.ge}.get(type(x.ops[0]))
-            return None if a is None or b is None or f is None else f(a, b)
+            f = {ast.Eq: _op.eq, ast.NotEq: _op.ne, ast.Lt: _op.lt, ast.LtE: _op.le, ast.Gt: _op.gt, ast.GtE: _op.ge}.get(op)
+            if f is None:
+                return None
+            try:
+                return f(a, b)
+            except TypeError:
+                return 'TYPE'
         cases = set()
         unknown = False
+        type_error = False
         for rv in (-1, 0, 2):
-            for sv in (-1, 0, 2):
+            for sv in (star_sentinel, 0, 2):
                 vals = [ev(x, rv, sv) for x in g]
-                if None in vals:
+                if 'TYPE' in vals:
+                    type_error = True
+                elif None in vals:
                     unknown = True
                 elif all(vals):
-                    cases.add('none' if rv < 0 else 'star' if sv >= 0 else 'free')
+                    cases.add('none' if rv < 0 else 'free' if sv is star_sentinel or sv == star_sentinel and sv != 0 else 'star')
+        if type_error:
+            r.violation(label + ': case split', 'the test `%s` compares the result of __find_star_in_row by order, but that finder reports '
+                        '"no star" as %r: the comparison raises TypeError as soon as a row without a star is met'
+                        % (' and '.join(short(x) for x in g), star_sentinel), where, expected='a test that fits the finder\'s "not found" value')
+            continue
         if unknown:
             r.undecided(label, 'guard not evaluable: %s' % [short(x) for x in g], where)
             continue
@@ -1461,7 +1485,15 @@ def _step5_path(r, fi, S, pathv, cntv):
             else:
                 problems.append('the prime is searched in row `%s`' % short(m21['_A']))
         # the iteration runs only when a star was found
-        found_guard = any(nf.match('0 <= %s.__find_star_in_col(_A)' % S, g) is not None for g in guards)
+        col_sentinel = SENTINELS.get('__find_star_in_col', -1)
+        found_forms = ['0 <= %s.__find_star_in_col(_A)' % S, '%s.__find_star_in_col(_A) != -1' % S] if col_sentinel == -1 else \
+            ['%s.__find_star_in_col(_A) is not None' % S]
+        wrong_forms = ['%s.__find_star_in_col(_A) is not None' % S] if col_sentinel == -1 else ['0 <= %s.__find_star_in_col(_A)' % S]
+        found_guard = any(nf.match(f_, g) is not None for g in guards for f_ in found_forms)
+        if not found_guard and any(nf.match(f_, g) is not None for g in guards for f_ in wrong_forms):
+            definite.append('the "star found" test does not fit the value __find_star_in_col returns for "not found" (%r): %s'
+                            % (col_sentinel, 'every column counts as holding a star' if col_sentinel == -1 else 'the comparison raises TypeError'))
+            found_guard = True
         if not found_guard:
             problems.append('the entries are appended without the test "a starred zero was found" (guards: %s)' % [short(g) for g in guards])
     if not extended:
@@ -1488,6 +1520,45 @@ def _simplify_tuple_index(e):
                 return node.value.elts[node.slice.value]
             return node
     return T().visit(clone(e))
+
+
+
+SENTINELS = {}        # finder name -> value it returns for "not found" (-1 or None), filled by _scans
+
+
+def _index_generator(gen, S):
+    """`(k for k, m in enumerate(LINE) if COND(m))` -> the index form `(k for k in RANGE if COND(LINE[k]))`, where LINE is a row
+    of a square field (`self.marked[r]`), a generated column `(x[c] for x in self.marked)` or `(f(i) for i in range(E))`."""
+    if gen is None or len(gen.generators) != 1:
+        return gen
+    g0 = gen.generators[0]
+    if not (cm.is_call_to(g0.iter, 'enumerate', 1) and isinstance(g0.target, ast.Tuple) and len(g0.target.elts) == 2
+            and all(isinstance(t, ast.Name) for t in g0.target.elts)):
+        return gen
+    kv, mv = [t.id for t in g0.target.elts]
+    line = g0.iter.args[0]
+    kname = ast.Name(id=kv, ctx=ast.Load())
+    rng, cellexpr = None, None
+    if isinstance(line, ast.Subscript) and cm.is_self_attr(line.value, S) and line.value.attr in ('marked', 'C'):
+        rng = ast.parse('range(%s.n)' % S, mode='eval').body
+        cellexpr = ast.Subscript(value=line, slice=kname, ctx=ast.Load())
+    elif isinstance(line, (ast.GeneratorExp, ast.ListComp)) and len(line.generators) == 1 and not line.generators[0].ifs \
+            and isinstance(line.generators[0].target, ast.Name):
+        lg = line.generators[0]
+        if cm.is_self_attr(lg.iter, S) and lg.iter.attr in ('marked', 'C'):
+            rng = ast.parse('range(%s.n)' % S, mode='eval').body
+            cellexpr = nf.subst(line.elt, {lg.target.id: ast.Subscript(value=lg.iter, slice=kname, ctx=ast.Load())})
+        elif cm.is_call_to(lg.iter, 'range', 1):
+            rng = lg.iter
+            cellexpr = nf.subst(line.elt, {lg.target.id: kname})
+    if rng is None:
+        return gen
+    new = type(gen)(elt=nf.subst(gen.elt, {mv: cellexpr}),
+                    generators=[ast.comprehension(target=ast.Name(id=kv, ctx=ast.Store()), iter=rng,
+                                                  ifs=[nf.subst(c, {mv: cellexpr}) for c in g0.ifs], is_async=0)])
+    ast.copy_location(new, gen)
+    ast.fix_missing_locations(new)
+    return new
 
 
 def _compose_next(outer_fi, meth, pre):
@@ -1600,7 +1671,9 @@ def _scans(r, idx, meth):
             fi_body_for = None
         label = 'Munkres.%s' % name
         sr = _single_return(fi)
-        nx = sr.value if sr is not None else None
+        if sr is None and fi is outer_fi and len(body) == 1 and isinstance(body[0], ast.Return):
+            sr = body[0]                 # `cells = ...; return next(...)`: the temporaries are in `pre`
+        nx = nf.subst(sr.value, pre) if (sr is not None and pre and fi is outer_fi) else (sr.value if sr is not None else None)
         composed = _compose_next(outer_fi, meth, pre)
         if composed is not None:
             nx, sr, used_helper = composed
@@ -1610,7 +1683,7 @@ def _scans(r, idx, meth):
         if sr is not None and cm.is_call_to(nx, 'next') and nx.args and _gen_of(fi, nx.args[0]) is not None \
                 and not any(isinstance(x, ast.For) for x in fi.node.body):
             # first match of a generator, default when there is none  ==  the search loop with break
-            gen = _gen_of(fi, nx.args[0])
+            gen = _index_generator(_gen_of(fi, nx.args[0]), S)
             dflt = nx.args[1] if len(nx.args) > 1 else None
             if len(gen.generators) != 1 or not isinstance(gen.generators[0].target, ast.Name):
                 raise AnalysisError('%s: generator `%s` not recognised' % (name, short(gen)))
@@ -1636,10 +1709,12 @@ def _scans(r, idx, meth):
                 continue
             if not cm.is_name(gen.elt, k):
                 r.violation(construct, 'the scan reports `%s`, not the index of the %s it finds' % (short(gen.elt), word), fi.loc)
-            elif dflt is None or nf.const_value(nf.canon(dflt), None) != -1:
-                r.violation(construct, '"not found" is not reported as -1 (default `%s`)' % short(dflt), fi.loc)
+            elif dflt is None or not (nf.const_value(nf.canon(dflt), 'x') == -1 or (isinstance(dflt, ast.Constant) and dflt.value is None)):
+                r.violation(construct, '"not found" is reported as `%s`, which is not distinguishable from an index (-1 or None expected)'
+                            % short(dflt), fi.loc)
             elif t_hit and not t_miss:
-                r.ok(construct, 'index of the first %s in the %s (generator + next), -1 when there is none' % (word, axis), fi.loc)
+                SENTINELS[name] = None if (isinstance(dflt, ast.Constant) and dflt.value is None) else -1
+                r.ok(construct, 'index of the first %s in the %s (generator + next), %s when there is none' % (word, axis, SENTINELS[name]), fi.loc)
             else:
                 r.violation(construct, 'the scan %s' % ('does not select cells that hold a %s' % word if not t_hit else
                                                        'selects cells that are not a %s' % word), fi.loc)
@@ -1678,6 +1753,7 @@ def _scans(r, idx, meth):
         spurious = any(t == 'out' for t, op, v, s in miss[0]) or (miss[1] and miss[1][0] in ('break', 'return'))
         init = True if out is None else [v for v in lib.assigned_value(fi.node, out) if nf.const_value(nf.canon(v), None) == -1]
         if found and not spurious and init:
+            SENTINELS[name] = -1
             r.ok(construct, 'index of the %s in the %s, -1 when there is none' % (word, axis), fi.loc)
         elif not init:
             r.violation(construct, '"not found" is not reported as -1', fi.loc)
